@@ -142,19 +142,21 @@ theorem findPromotable_plain (ty : HBType) (hty : ty.plain) (m : Mode) (numThr :
     (thr : List (Nat × Rat)) (rg : Rung) (hint : Option Nat) :
     (findPromotable ty m numThr thr rg hint).pick = plainPick m rg hint ∧
     (findPromotable ty m numThr thr rg hint).thr = thr := by
-  unfold findPromotable plainPick
-  rcases hty with rfl | rfl <;>
-  · simp only [reduceCtorEq, if_false]
+  have key : (findPromotableQ false m numThr thr rg hint).pick = plainPick m rg hint ∧
+      (findPromotableQ false m numThr thr rg hint).thr = thr := by
+    unfold findPromotableQ plainPick
     cases rg.cutoff m with
     | none => simp
     | some c =>
-      simp only
+      simp only [Bool.false_eq_true, if_false]
+      unfold quantileTest
       cases firstUnpromoted rg.data 0 with
       | none => simp
       | some ep =>
         obtain ⟨e, pos⟩ := ep
         simp only
         split <;> simp
+  rcases hty with rfl | rfl <;> exact key
 
 /-- what a plain pick means -/
 theorem plainPick_some (m : Mode) (rg : Rung) (hint : Option Nat) (tid pos : Nat)
